@@ -1,6 +1,7 @@
 import QipVerif.Util.GateIO
 import QipVerif.Gen.DecompTables
 import QipVerif.Gen.DecompLabels
+import QipVerif.Gen.DecompAlias
 /-! Driver for the `resolve_gates` model (C03).
 
 * `resolve keep=0|1 basis=str:NAME | list:N1,N2,.. gates=<list>` → `ok <list>` | `err <kind>`
@@ -9,6 +10,7 @@ import QipVerif.Gen.DecompLabels
   item  = `M` (a measurement) | NAME/targets/controls/angle/label/cond
   label = `n` | `f<k>_<m>` (the text kπ/m) | `u<id>` (a user's text)
   cond  = `n` | `<bits>:<value>`            fgate = item fields + `/src` (`n` | index of the input gate passed through)
+  alias names of `Gen.ruleAlias` (`H`) are read as their canonical name (`resolveCA`)
 * `buildable gates=<list>` → `1,0,…`: do the constructors of the gate classes accept name + controls (`Decomp.buildable`)
 -/
 open QipVerif QipVerif.Proto QipVerif.GateIO QipVerif.Decomp
@@ -86,7 +88,7 @@ def step (line : String) : String :=
   | some "resolvef" =>
     match (fStr? fs "v").bind variant?, (fStr? fs "basis").bind basis?, (fStr? fs "items").bind items? with
     | some v, some b, some its =>
-      match resolveC Gen.tables Gen.labels v b its with
+      match resolveCA Gen.tables Gen.labels Gen.ruleAlias v b its with
       | .ok out => "ok " ++ (if out.isEmpty then "-" else ";".intercalate (out.map showF))
       | .error .measurement => "err measurement"
       | .error (.res e) => "err " ++ errName e
